@@ -598,6 +598,21 @@ func TestC13(t *testing.T) {
 			run.Violation(id, r.Key, r.What, nil)
 		}
 	}
+	for i, nn := range []int{600, 300, 1100} {
+		id := fmt.Sprintf("silent-flood/%d", nn)
+		if !run.Mine(i+3) || !run.Want(id) {
+			continue
+		}
+		run.Journal(id, "start")
+		var res []*c01Result
+		err := Bubble(t, func() { res = runC13SilentFlood(run, run.Seed()*43+int64(i), nn, i == 1) })
+		if err != nil {
+			res = append(res, &c01Result{"C13/bubble", err.Error()})
+		}
+		for _, r := range res {
+			run.Violation(id, r.Key, r.What, nil)
+		}
+	}
 	for i, mode := range []string{"join", "periodic"} {
 		id := "deaf-peer/" + mode
 		if !run.Mine(i+2) || !run.Want(id) {
@@ -614,7 +629,7 @@ func TestC13(t *testing.T) {
 		}
 	}
 	if !run.Replaying() {
-		run.Require("deaf-peer|join", "deaf-peer|periodic")
+		run.Require("deaf-peer|join", "deaf-peer|periodic", "silent-flood|n=600|shutdown=false", "silent-flood|n=300|shutdown=true")
 		run.Require("nack-flood|indirect=1", "merge-cap|offered=150")
 		run.Require("odd|pushpull-join=true|left-alone|merge", "odd|pushpull-join=true|alone|merge+alive", "odd|gossip|with-peers|alive", "odd|pushpull-join=false|left-with-peers|none")
 	}
